@@ -128,6 +128,7 @@ LEVEL = 'proof'
 # harnesses that exist in a unit's source but are not run: they did not finish within their time/memory budget on this machine.
 # They are listed in the evidence under not_decided_clauses; removing them from the source would only invalidate the result reuse.
 SKIP_HARNESSES = {
-    ('geo', 'geo_x_axis_exact_rounding_all'): 'x-axis exact rounding over ALL levels in one harness did not finish within 60 min; the rule is checked at the fixed level 5 '
-                                              '(geo_x_axis_exact_rounding_z05) and the all-level harnesses geo_x_axis_covers / geo_x_axis_roundtrip',
+    ('geo', 'geo_pyramid_intersect_geo_bbox'): 'with the exact x-axis intersection assertion for two fully symbolic inputs the harness does not finish within 60 min; '
+                                               'TileBBoxPyramid::intersect_geo_bbox is proved for all pyramids by the Verus unit pyramid_real (relative to from_geo), '
+                                               'from_geo by the other geo harnesses, and the bounded harness geo_pyramid_intersect_every_level_fixed_box runs the real loop',
 }
